@@ -40,14 +40,14 @@ func init() {
 		{Pkg: "io/fs", Func: "FileMode.Perm"},
 		{Pkg: ".../plugin", Func: "isExecutableFile"},
 
+		// Get returns the interface plugin.Plugin: every value of it in the translated code holds a
+		// *CLIPlugin (Concrete); the value is ptr (ptr CLIPlugin), the typed nil kept exactly
+		{Pkg: "path", Func: "Join", Oracle: true},
+		{Pkg: "github.com/notaryproject/notation-plugin-framework-go/plugin", Type: "Plugin", Nilable: true, Concrete: ".../plugin.CLIPlugin"},
+		{Pkg: ".../plugin", Func: "(*CLIManager).Get"},
+
 		// refused; kept because the reasons document what is tied to the code by the
 		// correspondence harness only:
-		// result type plugin.Plugin (interface): `return NewCLIPlugin(..)` converts a concrete
-		// *CLIPlugin into an interface value (typed-nil semantics), which is outside the subset
-		// (refused by the translator also with a {Type: "Plugin", Opaque, Nilable} row):
-		// C16_gen_Get_composition states the composition of the translated pieces instead
-		{Pkg: "path", Func: "Join", Oracle: true},
-		{Pkg: ".../plugin", Func: "(*CLIManager).Get"},
 		// fs.WalkDir / filepath.WalkDir with the SkipDir protocol (not the Callback contract)
 		{Pkg: ".../plugin", Func: "(*CLIManager).List"},
 		{Pkg: ".../plugin", Func: "parsePluginFromDir"},
